@@ -74,6 +74,10 @@ def variants(c, H, rng, thorough):
             for s in subs:
                 out.append(dict(poly="sip", subset=s))
             out.append(dict(poly="wpall", flat=False, aliased=True))
+        elif at == "A":
+            # the relationship itself, without of_type(): its target is the base class (with a mapper-level with_polymorphic the
+            # relationship's own adapter has to translate the criteria)
+            out.append(dict(poly="none", noft=True))
         if q["flt"] == "sub":
             fc = q["fc"]
             keep = []
@@ -94,7 +98,7 @@ def variants(c, H, rng, thorough):
                 out.append(dict(poly="wppart", subset=s, loader=ld, target="of_type", flat=True))
                 out.append(dict(poly="sip", subset=s, loader=ld, target="plain"))
     for v in out:
-        v["mcfg"] = rng.choice(oq.MCFGS)
+        v["mcfg"] = rng.choice(("wpstar", "wpstar") + tuple(oq.MCFGS)) if v.get("noft") else rng.choice(oq.MCFGS)
     if thorough:
         out = [dict(v, mcfg=m) for v in out for m in oq.MCFGS]
     return out
@@ -130,12 +134,13 @@ def run_variant(c, v, H, sa, orm):
             stmt = stmt.where(crit)
         stmt = stmt.order_by(o(ent.id))
     elif via == "jot":
-        stmt = sa.select(Hc, ent).join(Hc.items.of_type(ent))
+        stmt = sa.select(Hc, ent).join(Hc.items if v.get("noft") else Hc.items.of_type(ent))
         if crit is not None:
             stmt = stmt.where(crit)
         stmt = stmt.order_by(o(Hc.id), o(ent.id))
     elif via == "aot":
-        stmt = sa.select(Hc).where(Hc.items.of_type(ent).any(crit) if crit is not None else Hc.items.of_type(ent).any())
+        rel = Hc.items if v.get("noft") else Hc.items.of_type(ent)
+        stmt = sa.select(Hc).where(rel.any(crit) if crit is not None else rel.any())
         stmt = stmt.order_by(o(Hc.id))
     else:
         ld = getattr(orm, NAME[v["loader"]])
